@@ -17,7 +17,7 @@
 import copy
 import dataclasses
 from itertools import islice
-from math import atan2, sqrt
+from math import atan2, cos, degrees, hypot, radians, sin, sqrt
 from picosvg.geometric_types import Vector, almost_equal
 from picosvg.svg_types import SVGShape, SVGPath
 from typing import Callable, Generator, Iterable, Optional, Tuple
@@ -202,6 +202,28 @@ ARC_RADIUS_COORD_OFFSET = (
 )  # offset from corresponding coord, e.g. x coord is 5, matching radius is 0
 
 
+# Radii and x-axis-rotation (degrees) of the image of an ellipse under the linear part of affine
+def _map_ellipse(affine, rx, ry, rotation):
+    phi = radians(rotation)
+    ux, uy = rx * cos(phi), rx * sin(phi)
+    vx, vy = -ry * sin(phi), ry * cos(phi)
+    # columns of the matrix taking the unit circle onto the image ellipse
+    m00, m10 = affine.map_vector((ux, uy))
+    m01, m11 = affine.map_vector((vx, vy))
+    a = m00 * m00 + m01 * m01
+    b = m00 * m10 + m01 * m11
+    c = m10 * m10 + m11 * m11
+    spread = hypot(a - c, 2 * b)
+    new_rx = sqrt((a + c + spread) / 2)
+    new_ry = sqrt(max((a + c - spread) / 2, 0.0))
+    if almost_equal(new_rx, new_ry):
+        return new_rx, new_ry, 0.0  # a circle has no axes to turn
+    if almost_equal(b, 0):
+        # axes stay on the coordinate axes: keep rx along x where it is, no rotation
+        return sqrt(a), sqrt(c), 0.0
+    return new_rx, new_ry, degrees(0.5 * atan2(2 * b, a - c))
+
+
 # Transform all coords in an affine-friendly path
 def _affine_callback(affine, subpath_start, curr_pos, cmd, args, *_unused):
     x_coord_idxs, y_coord_idxs = svg_meta.cmd_coords(cmd)
@@ -225,16 +247,14 @@ def _affine_callback(affine, subpath_start, curr_pos, cmd, args, *_unused):
         args[x_coord_idx] = new_x
         args[y_coord_idx] = new_y
 
-        # Arc radii are, excitingly, NOT coords. However, the curvature is entirely different
-        # and nothing normalizes if they are not adjusted so try scaling rx/y proportionally to
-        # the change in magnitude of the respective basis vectors.
+        # Arc radii are, excitingly, NOT coords: the image of the arc's ellipse under the
+        # linear part of the affine is another ellipse, with its own radii and x-axis-rotation.
         if cmd.upper() == "A":
-            x_basis = Vector(affine.a, affine.b)
-            y_basis = Vector(affine.c, affine.d)
-            rx = args[x_coord_idx + ARC_RADIUS_COORD_OFFSET]
-            ry = args[y_coord_idx + ARC_RADIUS_COORD_OFFSET]
-            args[x_coord_idx + ARC_RADIUS_COORD_OFFSET] = rx * x_basis.norm()
-            args[y_coord_idx + ARC_RADIUS_COORD_OFFSET] = ry * y_basis.norm()
+            rx_idx = x_coord_idx + ARC_RADIUS_COORD_OFFSET
+            ry_idx = y_coord_idx + ARC_RADIUS_COORD_OFFSET
+            args[rx_idx], args[ry_idx], args[2] = _map_ellipse(
+                affine, args[rx_idx], args[ry_idx], args[2]
+            )
             # a mirror image is drawn with the opposite sweep
             if affine.determinant() < 0:
                 args[4] = 1 - args[4]
